@@ -70,8 +70,32 @@ fn probe(p: &CoroutinePool<'static>) {
     rec(json!({"ev": "probe", "running": p.get_running_size(), "pstate": pstate(p)}));
 }
 
+static RACE_TASK: std::sync::atomic::AtomicU64 = std::sync::atomic::AtomicU64::new(0);
+static RACE_STORED: std::sync::atomic::AtomicBool = std::sync::atomic::AtomicBool::new(false);
+
 fn run_scenario(sc: &Value) {
-    install_hook_sink(Some(Box::new(hook_map)));
+    install_hook_sink(Some(Box::new(|m| {
+        if m.get("ev").and_then(Value::as_str) == Some("result_stored") {
+            let name = m.get("task").and_then(Value::as_str).unwrap_or("");
+            let t: u64 = name.strip_prefix('t').and_then(|x| x.split('-').next()).and_then(|x| x.parse().ok()).unwrap_or(0);
+            if t != 0 && t == RACE_TASK.load(std::sync::atomic::Ordering::SeqCst) {
+                RACE_STORED.store(true, std::sync::atomic::Ordering::SeqCst);
+            }
+        }
+        hook_map(m)
+    })));
+    // schedule forcing for the join protocol: a waiter that missed at its first look is held
+    // before it registers until the task's result has been stored and announced
+    open_coroutine_core::common::verif::set_pause(Some(Box::new(|point| {
+        if point != "pool_wait_between_check_and_register" || RACE_TASK.load(std::sync::atomic::Ordering::SeqCst) == 0 {
+            return;
+        }
+        let t0 = Instant::now();
+        while !RACE_STORED.load(std::sync::atomic::Ordering::SeqCst) && t0.elapsed() < Duration::from_millis(200) {
+            std::thread::sleep(Duration::from_millis(1));
+        }
+        std::thread::sleep(Duration::from_millis(5));
+    })));
     let max = sc["max"].as_u64().unwrap() as usize;
     let min = sc["min"].as_u64().unwrap_or(0) as usize;
     let nt = sc["nt"].as_u64().unwrap();
@@ -114,7 +138,7 @@ fn run_scenario(sc: &Value) {
                     None,
                     prio,
                 );
-                rec(json!({"ev": "submit_e", "task": t, "ok": r.is_ok(), "prio": prio.unwrap_or(0)}));
+                rec(json!({"ev": "submit_e", "task": t, "ok": r.is_ok(), "prio": prio.unwrap_or(0).clamp(-1000, 1000)}));
                 if let Ok(id) = r {
                     ids.insert(t, id);
                 }
@@ -137,6 +161,10 @@ fn run_scenario(sc: &Value) {
                 let t = h["t"].as_u64().unwrap();
                 let ms = h.get("ms").and_then(Value::as_u64).unwrap_or(300);
                 if let Some(id) = ids.get(&t).copied() {
+                    if h.get("race").and_then(Value::as_bool).unwrap_or(false) {
+                        RACE_STORED.store(false, std::sync::atomic::Ordering::SeqCst);
+                        RACE_TASK.store(t, std::sync::atomic::Ordering::SeqCst);
+                    }
                     let sh = Shared(std::ptr::from_ref(pool));
                     rec(json!({"ev": "wait_b", "task": t, "ms": ms}));
                     waiters.push(std::thread::spawn(move || {
